@@ -90,13 +90,18 @@ CORPUS = {
         N("add-floor-to-math-names", U, [('    "exp",\n}', '    "exp",\n    "floor",\n}')]),
     ],
     "C04": [
+        M("widening-stops-at-nearest-loop", U, [("            loop = par\n            if all(par.parent_of(a) for a in accesses):\n                break\n", "            loop = par\n            break\n")], ["R04.d"]),
+        M("accesses-not-handed-to-the-widening", T, [("all_nodes = [get_loop_ancestor(n, accesses) for n in accesses]", "all_nodes = [get_loop_ancestor(n) for n in accesses]")], ["R04.d"]),
+        N("widening-to-the-outermost-loop", U, [("            loop = par\n            if all(par.parent_of(a) for a in accesses):\n                break\n", "            loop = par\n")]),
         M("eighteen-registers", RA, [("registers = list(range(16))", "registers = list(range(18))")], ["R04.a"]),
         M("bound-test-off-by-one", RA, [("if col >= len(available_registers):", "if col > len(available_registers):")], ["R04.b"]),
         M("bound-test-does-not-raise", RA, [("                raise CompilerError(\n                    f\"Running out of registers, try to simplify your code.\"\n                )", "                col = 0")], ["R04.b"]),
         M("release-one-line-early", RA, [("            if e <= start:", "            if e <= start + 1:")], ["R04.c"]),
         M("closed-interval", T, [("range(min_line, max_line + 1)", "range(min_line, max_line)")], ["R04.c"]),
-        M("no-loop-widening", T, [("get_loop_ancestor(n) for n in self.nodes_reading + self.nodes_writing", "n for n in self.nodes_reading + self.nodes_writing")], ["R04.d"]),
-        M("widening-writers-only", T, [("for n in self.nodes_reading + self.nodes_writing", "for n in self.nodes_writing")], ["R04.d"]),
+        M("no-loop-widening", T, [("all_nodes = [get_loop_ancestor(n, accesses) for n in accesses]", "all_nodes = [n for n in accesses]")], ["R04.d"]),
+        M("widening-writers-only", T, [("all_nodes = [get_loop_ancestor(n, accesses) for n in accesses]", "all_nodes = [get_loop_ancestor(n, accesses) for n in self.nodes_writing]")], ["R04.d"]),
+        M("widening-skips-some-accesses", T, [("all_nodes = [get_loop_ancestor(n, accesses) for n in accesses]", "all_nodes = [get_loop_ancestor(n, accesses) for n in accesses if n.lineno > 1]")], ["R04.d"]),
+        N("loop-kinds-as-two-tests", U, [("        if isinstance(par, (nodes.For, nodes.While)):\n            loop = par\n            if all(par.parent_of(a)", "        if isinstance(par, nodes.For) or isinstance(par, nodes.While):\n            loop = par\n            if all(par.parent_of(a)")]),
         _MODULE_LIFETIME,
         M("callers-not-subtracted", RA, [("available_registers = list(sorted(set(registers) - parent_registers))", "available_registers = list(sorted(set(registers)))")], ["R04.f"]),
         M("blocked-set-not-transitive", RA, [("blocked_registers_by_scope[scope] = blocked_registers.union(parent_registers)", "blocked_registers_by_scope[scope] = blocked_registers")], ["R04.f"]),
